@@ -651,4 +651,5 @@ static void cr_gen(Ctx& ctx) {
     });
 }
 
+VK_FRESH_THREADS;
 VK_MAIN("C16")
